@@ -115,6 +115,8 @@ class Mismatch:
 
 
 def _matches(obs_ev, obs_state, ev, to):
+    if ev.get("out") == "Unmodelled":
+        return None  # the specification does not describe this input
     for k, v in obs_ev.items():
         if k in ev and ev[k] != v:
             return "event field %r: spec %r, code %r" % (k, ev[k], v)
@@ -150,6 +152,9 @@ def run_graph(adapter, graph, max_cases=None, seed=0, stop_after=20):
         try:
             diverted = False
             for ev, to in path:
+                if ev.get("out") == "Unmodelled":
+                    diverted = True
+                    break
                 obs_ev = adapter.step(sut, ev)
                 obs_state = adapter.observe(sut)
                 stats["steps"] += 1
@@ -162,6 +167,9 @@ def run_graph(adapter, graph, max_cases=None, seed=0, stop_after=20):
                 stats["diverted_prefix"] += 1
                 continue
             ev0 = alts[0][0]
+            if all(ev.get("out") == "Unmodelled" for ev, _ in alts):
+                stats["unmodelled_cases"] += 1
+                continue
             obs_ev = adapter.step(sut, ev0)
             obs_state = adapter.observe(sut)
             stats["steps"] += 1
